@@ -324,5 +324,15 @@ def main_wrapper(fn):
         rc = fn()
     except MachineryError as e:
         print("MACHINERY-FAILURE: %s" % e)
-        sys.exit(2)
-    sys.exit(rc)
+        rc = 2
+    except Exception:
+        import traceback
+
+        traceback.print_exc()
+        print("MACHINERY-FAILURE: unexpected exception in the harness")
+        rc = 2
+    sys.stdout.flush()
+    sys.stderr.flush()
+    # skip interpreter-shutdown handlers of the package under test (pyfftw's cache thread cannot be
+    # restarted at shutdown and prints a traceback; nothing of ours depends on them)
+    os._exit(rc)
